@@ -33,6 +33,7 @@ type c25Op struct {
 	E        int    `json:"e,omitempty"`   // entry point: 0 vote router, 1 ripple, 2 addSignature
 	Msg      int    `json:"msg,omitempty"` // message selector
 	V        int    `json:"v,omitempty"`   // voter / quitting validator selector
+	Var      int    `json:"var,omitempty"` // payload variant: same source chain, height and cross-chain id, different content
 	Unsigned bool   `json:"unsigned,omitempty"`
 }
 
@@ -41,6 +42,7 @@ type c25Case struct {
 	K    int     `json:"k"`
 	Net  uint32  `json:"net"`
 	Ids  int     `json:"ids"` // number of message ids in play (1..3)
+	Fam  bool    `json:"fam,omitempty"` // message families: several payloads share (source chain, height, cross-chain id)
 	Ents []int   `json:"ents"`
 	Ops  []c25Op `json:"ops"`
 }
@@ -76,6 +78,7 @@ func genC25(t *rapid.T) c25Case {
 	c.Net = rapid.SampledFrom([]uint32{2, 1}).Draw(t, "net")
 	c.Ids = rapid.SampledFrom([]int{1, 1, 1, 2, 3}).Draw(t, "ids")
 	c.Ents = rapid.SampledFrom([][]int{{0}, {1}, {2}, {0, 2}, {1, 2}, {0, 1}, {0, 1, 2}}).Draw(t, "ents")
+	c.Fam = rapid.Bool().Draw(t, "fam")
 	univ := c.N + c.K + 2
 	// weights through explicit tables (rapid's integer ranges favour small values)
 	kinds := make([]string, 0, 50)
@@ -98,6 +101,9 @@ func genC25(t *rapid.T) c25Case {
 		op.V = rapid.OneOf(rapid.IntRange(0, c.N-1), rapid.IntRange(0, c.N-1), rapid.IntRange(0, c.N-1), rapid.IntRange(0, c.N-1),
 			rapid.IntRange(0, univ-1), rapid.IntRange(c.N, univ-1)).Draw(t, "v")
 		op.Unsigned = rapid.IntRange(0, 39).Draw(t, "unsigned") == 39
+		if c.Fam {
+			op.Var = rapid.SampledFrom([]int{0, 0, 1, 1, 2}).Draw(t, "var")
+		}
 		return op
 	})
 	// the length is drawn from a table: rapid's own slice lengths are mostly short, and a threshold of
@@ -125,6 +131,7 @@ func runC25(ctx *ev.Ctx, c c25Case) {
 	}
 	f, _ := getBase(fmt.Sprintf("c25/%d/%d/%d", c.N, c.K, net), net, func() (*world.World, interface{}) { return buildC25(c.N, c.K, net) })
 	ids := map[string]*c25Id{}
+	done := map[string]bool{} // (entry, message family) whose cross-chain id has been recorded as done by a release
 	_, cons := consensusAddrs(f.World)
 	ctx.Label(fmt.Sprintf("n:%d", c.N))
 	entName := []string{"vote", "ripple", "sig"}
@@ -169,7 +176,14 @@ func runC25(ctx *ev.Ctx, c c25Case) {
 		ent := c.Ents[((op.E%len(c.Ents))+len(c.Ents))%len(c.Ents)] % 3
 		msg := ((op.Msg % 3) + 3) % 3
 		a, vkind := voter(op.V)
-		key := fmt.Sprintf("%s/%d", entName[ent], msg)
+		vr := 0
+		if c.Fam && ent != 2 { // a collected signature is identified by its subject alone: no families there
+			vr = ((op.Var % 3) + 3) % 3
+		}
+		fam := fmt.Sprintf("%s/%d", entName[ent], msg)
+		key := fmt.Sprintf("%s/%d", fam, vr)
+		// the replay guard on the cross-chain id: always on the ripple router, on the vote router on the main net
+		doneActive := ent == 1 || (ent == 0 && net == 1)
 		id := ids[key]
 		if id == nil {
 			id = &c25Id{voters: map[common.Address]bool{}}
@@ -184,12 +198,16 @@ func runC25(ctx *ev.Ctx, c c25Case) {
 		var args []byte
 		switch ent {
 		case 0:
-			extra := encMakeTxParam([]byte{0xA0, byte(msg)}, []byte{0xC0, byte(msg)}, []byte{2}, c25Target, make([]byte, 20), "unlock", []byte{3, byte(msg)})
+			toContract := make([]byte, 20)
+			toContract[0] = byte(vr)
+			extra := encMakeTxParam([]byte{0xA0, byte(msg), byte(vr)}, []byte{0xC0, byte(msg)}, []byte{2}, c25Target, toContract, []string{"unlock", "mint", "unlock"}[vr], []byte{3, byte(msg), byte(7 * vr)})
 			contract, method, args = ccmAddr, "ImportOuterTransfer", encEntrance(chainVote, uint32(10+msg), []byte{byte(i)}, a[:], extra, nil)
 		case 1:
 			s := newSnk()
-			s.WriteVarBytes(make([]byte, 20))
-			s.WriteUint64(1000 + uint64(msg))
+			dst := make([]byte, 20)
+			dst[19] = byte(vr)
+			s.WriteVarBytes(dst)
+			s.WriteUint64(1000 + uint64(msg) + 500000*uint64(vr))
 			extra := encMakeTxParam([]byte{0xA1, byte(msg)}, []byte{0xC1, byte(msg)}, []byte{2}, c25Target, nil, "unlock", s.Bytes())
 			contract, method, args = ccmAddr, "ImportOuterTransfer", encEntrance(chainRipple, uint32(20+msg), nil, a[:], extra, []byte{byte(i)})
 		default:
@@ -240,6 +258,7 @@ func runC25(ctx *ev.Ctx, c c25Case) {
 			if id.released {
 				id.afterRelease = true
 			}
+			wasVoter := id.voters[a]
 			id.voters[a] = true
 			cnt := 0
 			for _, x := range cons {
@@ -248,6 +267,21 @@ func runC25(ctx *ev.Ctx, c c25Case) {
 				}
 			}
 			want := !id.released && cnt >= twoThirds(len(cons))
+			if want && doneActive && done[fam] {
+				// another message with the same cross-chain id has been released: the replay guard refuses
+				// this one at its quorum vote; the transaction fails as a whole, so the vote is not kept
+				ctx.Label("release-refused:cross-chain-id-done")
+				if fired || changed {
+					ctx.Failf("%s: quorum vote for a message whose cross-chain id is already done: fired=%v changed=%v", where, fired, changed)
+				}
+				if res.OK() {
+					ctx.Failf("%s: %d of %d current validators voted for exactly this message (need %d) but the vote was accepted without a release", where, cnt, len(cons), twoThirds(len(cons)))
+				}
+				if !wasVoter {
+					delete(id.voters, a)
+				}
+				continue
+			}
 			if !res.OK() {
 				ctx.Failf("%s: vote by a current consensus validator failed: %v", where, res.Err)
 			}
@@ -256,6 +290,10 @@ func runC25(ctx *ev.Ctx, c c25Case) {
 			}
 			if fired {
 				id.released = true
+				done[fam] = true
+				if vr != 0 || c.Fam {
+					ctx.Label("released:family-member")
+				}
 				ctx.Label("released:" + entName[ent])
 				if ent != 2 && len(res.CrossHashes) != 1 {
 					ctx.Failf("%s: release produced %d cross-chain messages", where, len(res.CrossHashes))
@@ -275,6 +313,8 @@ func TestC25(t *testing.T) {
 		"cases: forked L1 world with N=4..12 (thorough ..40) validators and 0..3 approved candidates, vote/ripple/target chains registered through "+
 			"side_chain_manager; history of 4..60 (thorough ..160) operations: votes on 1..3 message ids through ImportOuterTransfer on the vote router, "+
 			"ImportOuterTransfer on the ripple router and addSignature, by validators / candidates / outsiders / unsigned, interleaved with quitNode "+
+			"(in half of the cases a vote/ripple message id is a family of up to three different payloads sharing source chain, height and cross-chain id, "+
+			"each tallied on its own bytes) "+
 			"(consensus set shrinks at once) and commitDpos (candidates join). non-trivial: some id saw a repeat voter and a non-consensus voter "+
 			"before its threshold and at least one vote after its release; distinct by JSON of the case",
 		genC25, runC25)
